@@ -31,7 +31,70 @@ def run(ctx, report):
     report.section("fit_to_screen", fit_to_screen, ctx, report, folder)
     report.section("writer entry", writer_entry, ctx, report, folder)
     report.section("level coverage", level_coverage, ctx, report)
+    report.section("is_relative", is_relative_meaning, ctx, report, folder)
     report.not_decided.append("numeric results for particular float magnitudes (rounding of floats)")
+
+
+RELATIVE_COMPONENTS = {       # the size-bearing parts of each geometry class
+    "Stretch": ("horizontal", "vertical"), "Point": ("x", "y"),
+    "Padding": ("before", "after", "start", "end"), "Layout": ("origin", "extent", "padding"),
+}
+
+
+def is_relative_meaning(ctx, report, folder):
+    """The is_relative() guard that lets WebVTT skip relativization means what its users assume:
+    Size.is_relative() is true exactly for percentages (folded over every unit and the values
+    0, 1, 50), and a composite is relative exactly when EVERY size-bearing part is (folded on
+    stubs: one part absolute at a time, all relative, parts absent)."""
+    from ..core.constfold import Stub, Inst
+    units = folder.value("pycaption.geometry", "UnitEnum")
+    sz = ctx.index.get_class(GEOM, "Size")
+    fn = sz.find_method("is_relative")
+    if fn is None:
+        raise AnalysisError("Size.is_relative not found")
+    report.covered(fn)
+    bad = []
+    n = 0
+    for u in units.members:
+        for v in (0, 0.0, 1, 50.0):
+            n += 1
+            try:
+                got = folder.call_function(fn, [], self_value=Stub("size", {"value": v, "unit": u}))
+            except AnalysisError as e:
+                raise AnalysisError(f"Size.is_relative cannot be folded: {e}")
+            if bool(got) != (u.name == "PERCENT"):
+                bad.append({"value": v, "unit": u.name, "is_relative": got})
+    report.check(not bad, "R-GUARD-MEANING", fn, "Size.is_relative() is true exactly for percentages",
+                 {"evaluations": n, "mismatches": bad[:4],
+                  "why": "WebVTTWriter(relativize=False) writes a layout as it is when is_relative() says so"}, "1")
+    for cname, parts in RELATIVE_COMPONENTS.items():
+        c = ctx.index.get_class(GEOM, cname)
+        f = c.find_method("is_relative")
+        if f is None:
+            raise AnalysisError(f"{cname}.is_relative not found")
+        report.covered(f)
+        from ..engines.structural import init_attrs
+        others = [a for a in init_attrs(c)[0] if a not in parts]
+
+        def part(flag):
+            return Stub("part", {}, {"is_relative": (lambda flag=flag: flag)})
+        cases = [({p: True for p in parts}, True)]
+        for p in parts:
+            cases.append(({q: (q != p) for q in parts}, False))          # exactly one absolute part
+            cases.append(({q: True for q in parts if q != p}, True))      # that part absent, rest relative
+        badc = []
+        for present, want in cases:
+            attrs = {p: (part(present[p]) if p in present else None) for p in parts}
+            attrs.update({o: None for o in others})
+            try:
+                got = folder.call_function(f, [], self_value=Stub(cname.lower(), attrs))
+            except AnalysisError as e:
+                raise AnalysisError(f"{cname}.is_relative cannot be folded: {e}")
+            if bool(got) != want:
+                badc.append({"parts": {k: ("relative" if v else "absolute") for k, v in present.items()},
+                             "is_relative": got, "required": want})
+        report.check(not badc, "R-GUARD-MEANING", f, f"{cname}.is_relative() == every present part is relative",
+                     {"parts": list(parts), "cases": len(cases), "mismatches": badc[:3]}, "1")
 
 
 def unit_conversion(ctx, report, folder):
